@@ -68,17 +68,22 @@ Proof. exact sign_then_verify_hash. Qed.
 
 Open Scope string_scope.
 
-(* Definition -> report, claim v2.  Outside the known class F-CREATED-SUBSTR, for every definition (any labels, any
-   duplicates, thumbnails, ingredients) the reported assertions are exactly the supplied ones — created ones first,
-   each group in the supplied order — with the label produced by to_claim's dispatch, the kind, the created flag
-   and the payload (position) as given; thumbnails, ingredient assertions and the hard binding are not listed. *)
+(* Definition -> report, claim v2.  For every definition (any labels, duplicates, labels that are substrings of each
+   other, thumbnails, ingredients) whose labels do not themselves use the reserved `__<n>` instance syntax to collide
+   (label_collision; decidable, see c03_no_collision_decidable — the repaired class F-CREATED-SUBSTR needed a much wider
+   carve-out before fix 9afceaf9c), the reported assertions are exactly the supplied ones — created ones first, each
+   group in the supplied order — with the label produced by to_claim's dispatch, the kind, the created flag and the
+   payload (position) as given; thumbnails, ingredient assertions and the hard binding are not listed. *)
 Theorem c03_report_v2_as_given :
   forall d h,
     d_version d = 2%nat -> d_auto_actions d = false -> hidden_hash_label h = true ->
-    ~ known_misattribution (to_claim d h) ->
+    ~ label_collision (to_claim d h) ->
     map ra_view (r_assertions (sign_report d h))
     = (filter it_created (user_items d) ++ filter (fun t => negb (it_created t)) (user_items d))%list.
 Proof. exact report_v2_as_given. Qed.
+
+Theorem c03_no_collision_decidable : forall c, no_collision_b c = true -> ~ label_collision c.
+Proof. exact no_collision_b_sound. Qed.
 
 (* claim v1: supplied order, no created attribution *)
 Theorem c03_report_v1_as_given :
@@ -99,16 +104,21 @@ Proof. exact ingredients_v2_as_given. Qed.
 Theorem c03_plain_label_kept : forall l, plain_label l -> claim_label l = l.
 Proof. exact plain_label_kept. Qed.
 
-(* created assertions are always reported as created (the known class only turns gathered into created) *)
+(* created assertions are always reported as created *)
 Theorem c03_created_reported_created :
   forall c x, In x c -> ca_created x = true -> loaded_created 2 c x = true.
 Proof. exact loaded_created_sound. Qed.
 
-(* the two known classes are real in the model; ./check replays them on the implementation *)
-Theorem c03_created_misattribution_refuted :
-  exists r, In r (r_assertions (sign_report misattr_witness "c2pa.hash.data"))
-            /\ ra_src r = Some 1%nat /\ ra_label r = "org.a" /\ ra_created r = true.
-Proof. exact misattribution_refuted. Qed.
+(* the repaired class: substring labels and duplicate labels with mixed flags are reported with the supplied flags *)
+Theorem c03_substring_labels_fixed :
+  no_collision_b (to_claim substr_witness "c2pa.hash.data") = true
+  /\ map ra_view (r_assertions (sign_report substr_witness "c2pa.hash.data"))
+     = [("org.ab", false, true, Some 2%nat); ("com.x", false, true, Some 5%nat);
+        ("c2pa.actions.v2", false, false, Some 0%nat); ("org.a", false, false, Some 1%nat);
+        ("com.x", false, false, Some 3%nat); ("com.x", false, false, Some 4%nat)].
+Proof. exact substring_labels_fixed. Qed.
+
+(* the open class F-USER-VERSION is real in the model; ./check replays it on the implementation *)
 Theorem c03_version_suffix_refuted : claim_label "com.acme.review.v2" = "com.acme.review".
 Proof. exact version_suffix_refuted. Qed.
 
